@@ -120,7 +120,6 @@ func (r *rlocker) Unlock() { (*RWMutex)(r).RUnlock() }
 
 // Types without scheduling relevance for the controlled packages are aliases.
 type (
-	WaitGroup = sync.WaitGroup
 	Once      = sync.Once
 	Pool      = sync.Pool
 	Map       = sync.Map
@@ -129,3 +128,27 @@ type (
 )
 
 func NewCond(l Locker) *Cond { return sync.NewCond(l) }
+
+// WaitGroup is a cooperative wait group: Add / Done are logged accesses, Wait
+// parks the thread in the scheduler until the counter is zero.  The counter is
+// kept in both modes (the pool constructor runs outside a controlled run).
+type WaitGroup struct {
+	n int
+}
+
+func (w *WaitGroup) Add(d int) {
+	vsched.Step()
+	w.n += d
+	if w.n < 0 {
+		panic("sync: negative WaitGroup counter")
+	}
+}
+
+func (w *WaitGroup) Done() { w.Add(-1) }
+
+func (w *WaitGroup) Wait() {
+	vsched.WaitUntil(func() bool { return w.n == 0 })
+}
+
+// Count exposes the counter to the harness.
+func (w *WaitGroup) Count() int { return w.n }
